@@ -19,7 +19,7 @@ struct Profile {
     bool flushes = false;
     bool misuse = false;
     bool wide_ids = false;
-    bool subbyte_aligned = true;      // keep write lengths / ids of sub-byte types byte aligned (known finding KF-subbyte-unaligned-write)
+    bool subbyte_aligned = false;     // keep write lengths / ids of sub-byte types byte aligned (known finding KF-subbyte-unaligned-write)
 };
 
 Profile profile_for(const std::string &prop, int tier);     // tier: 0 quick, 1 thorough
